@@ -129,12 +129,20 @@ Definition type_prop_ok (t : ty) (ij : result json) (id : result ty) : bool :=
 
 (* "encoding is a function of the structure only": the decoded copy and the field-permuted copy
    encode to the same JSON as the original *)
-Definition type_struct_ok (ij rj pj : result json) : bool :=
+Definition type_struct_ok (same_order : bool) (ij rj pj : result json) : bool :=
   match ij with
-  | Ok a => match rj with Ok b => jeq a b | _ => false end
+  | Ok a => match rj with Ok b => negb same_order || jeq a b | _ => false end
             && match pj with Ok c => jeq a c | OutOfModel => true | Raises _ => false end
   | _ => false
   end.
+
+(* the decoded copy lists union members in the same order as the original.  (typing's parametrisation cache
+   is keyed by ==, which ignores union member order, so Dict[str, Union[float, int]] may come back as a
+   previously built Dict[str, Union[int, float]]: structurally identical in the sense of corrb, but with
+   another — legitimate — JSON, because member order is part of the JSON.  The re-encoding of such a copy
+   is still checked against the model's encoding of that copy below.) *)
+Definition same_order (t : ty) (id : result ty) : bool :=
+  match id with Ok t' => ty_eqb (canon t) (canon t') | _ => true end.
 
 Definition perm_ok (ij pj : result json) : bool :=
   match ij, pj with
@@ -147,7 +155,7 @@ Definition verdict_type (site : string) (t : ty) (ij : result json) (id : result
   if negb (well_formed t) then 3 else
   let in_scope := negb (has_fwd t) && all_importable t in
   if in_scope && negb (type_prop_ok t ij id) then 2
-  else if in_scope && negb (type_struct_ok ij rj pj) then 2
+  else if in_scope && negb (type_struct_ok (same_order t id) ij rj pj) then 2
   else
     if negb (res_json_eqb (type_to_json cn site t) ij) then 1 else
     if negb (match pj with OutOfModel => true | _ => res_json_eqb (type_to_json cn site t) pj end) then 1 else
@@ -163,7 +171,7 @@ Definition verdict_type (site : string) (t : ty) (ij : result json) (id : result
 
 Definition kf_type (t : ty) (ij : result json) (id : result ty) (pj : result json) : nat :=
   if has_tuplevar t then 1                                   (* kf_tuplevar_encode *)
-  else if has_td t && type_prop_ok t ij id && perm_ok ij pj then 2   (* kf_td_site: only the decoded copy differs *)
+  else if has_td t && type_prop_ok t ij id && perm_ok ij pj then 2   (* kf_td_site: only the (same-order) decoded copy differs *)
   else 0.
 
 (* ----- decoder edge stream ----- *)
